@@ -14,7 +14,9 @@ Decides:
  A ambiguity       run_inner returns before run_subparser only for the tokenizer's Ambiguity error.
  T combine table   Message::combine_with over all variant pairs: a ParseFailure operand always survives, two Missing
                    merge, otherwise the first non-catchable wins.
- B best effort     ParseAdjacent's failure exit swaps the best-effort state into the caller's state.
+ B best effort     ParseAdjacent's failure exit swaps the best-effort state into the caller's state WITH the caller's own scope
+                   (symbolic scope tracking of every Err return; found and fixed 0baea63), and ties between failed
+                   attempts keep the earlier one (strict comparison), so a help flag outside the attempted block stays visible.
  F final not caught   parse_option / fallback never convert a ParseFailure (shared with C06.K3).
  C command outcome  a matched command returns the (final) outcome of its first inner run; a retry of an adjacent
                    command can only replace a failure by a success (shared with C08).
